@@ -295,6 +295,14 @@ class GSeq:
             return GBag(list(other), self)            # order of the concatenation is irrelevant below sorted()
         return NotImplemented
 
+    def __pyvc_comp__(self, eng, bind):
+        # [e for e in L if p(e)]: the same subsequence as filter(p, L), provided the element expression is the element itself
+        g = ikey(eng.int('generic_element'))
+        keep, elt = bind(g)
+        if elt is not g:
+            raise Unsupported('comprehension over the ghost sequence that transforms its elements')
+        return GFilter(self, Z(g.f['value']), ZB(keep))
+
     def __pyvc_seqop__(self, eng, f, args, kwargs):
         if f is len:
             return self.__pyvc_len__(eng)
